@@ -196,6 +196,8 @@ def main():
             elif kind == "xparse":        # ["xparse", {s, settings, languages}]
                 _, a = c
                 st = _dec(a.get("settings"))
+                if a.get("settings_ref"):         # the SAME dict object as in earlier calls (edited in place by "xeditd")
+                    st = SHARED.setdefault(a["settings_ref"], st)
                 langs = list(a["languages"]) if a.get("languages") else None
                 args_before = (json.dumps(st, sort_keys=True, default=str), list(langs or []))
                 locs = list(a["locales"]) if a.get("locales") else None
@@ -211,6 +213,13 @@ def main():
             elif kind == "xedit":         # ["xedit", name, new content]: the caller edits its own list in place
                 _, name, content = c
                 SHARED.setdefault(name, [])[:] = list(content)
+                conc = "edited"
+                untouched = True
+            elif kind == "xeditd":        # ["xeditd", name, new settings]: the caller edits its own settings dict in place
+                _, name, content = c
+                d_ = SHARED.setdefault(name, {})
+                d_.clear()
+                d_.update(_dec(content))
                 conc = "edited"
                 untouched = True
             elif kind == "xsearch":
